@@ -99,9 +99,10 @@ def setup(ROOT, REPO, LEAN, GOENV):
     return bad
 
 
-def run_audit(LEAN, pid):
-    """#print-axioms audit of every theorem in namespace GV.Props.<pid>."""
-    src = "import GV.Audit\nimport GV.Props.%s\n#audit_ns GV.Props.%s\n" % (pid, pid)
+def run_audit(LEAN, pid, mods=None):
+    """#print-axioms audit of every theorem in the property's namespaces (= its GV.Props modules)."""
+    mods = [m for m in (mods or ["GV.Props.%s" % pid]) if m.startswith("GV.Props.")]
+    src = "import GV.Audit\n" + "".join("import %s\n" % m for m in mods) + "".join("#audit_ns %s\n" % m for m in mods)
     tmp = os.path.join(LEAN, ".audit_%s_%d.lean" % (pid, os.getpid()))
     open(tmp, "w").write(src)
     try:
@@ -190,6 +191,10 @@ def run_harness(ROOT, GOENV, scn, seed, n, flt=None, extra=None, timeout=1800):
             pending = None
         if p.returncode == 0:
             break
+        if p.returncode == 3 and pending is None:
+            # the harness asked for a fresh process after a case that hung
+            start = last_i + 1
+            continue
         # crashed (or killed): attribute to the pending case
         crashes += 1
         if pending is not None:
@@ -273,7 +278,7 @@ def check(ROOT, REPO, LEAN, GOENV, pid, prop, tier, seed):
             broken.append("lean-build: " + " | ".join(errs))
             # which theorems still check?  (best effort: audit is skipped)
         else:
-            arc, aout, thms = run_audit(LEAN, pid)
+            arc, aout, thms = run_audit(LEAN, pid, prop["lean"])
             if arc != 0:
                 broken.append("audit: " + aout[-1500:])
             for t in thms:
@@ -444,7 +449,8 @@ def replay(ROOT, REPO, LEAN, GOENV, path):
     for c in cases:
         o = outs.get(c.get("i"))
         iss = mod.compare(c, o) if o else [{"aspect": "driver", "kind": "impl-vs-model", "detail": "no output"}]
-        print(json.dumps({"obs": c.get("obs"), "driver": o, "issues": iss}, indent=1)[:6000])
+        print(json.dumps({"obs": c.get("obs"), "driver": o}, indent=1)[:3000])
+        print("ISSUES " + json.dumps(iss, indent=1)[:6000])
         if iss:
             bad = 1
     return bad
